@@ -16,7 +16,7 @@ PYTHONPATH=$WT/src /venv/bin/python -m pytest -q -p no:cacheprovider --timeout=9
 echo "== demo with the change (expect non-zero)"
 ( cd $SRC && PYTHONPATH=$WT/src timeout 1200 /venv/bin/python demo.py > $WT/_demo_with.log 2>&1; echo "exit=$?" ; tail -3 $WT/_demo_with.log )
 git apply -R $SRC/patch.diff
-if grep -q '^+++ .*\.\(c\|h\|pyx\)$' $SRC/patch.diff; then /venv/bin/python setup.py build_ext --inplace > $WT/_build2.log 2>&1; fi
+if grep -q '^+++ .*\.\(c\|h\|pyx\)$' $SRC/patch.diff; then /venv/bin/python setup.py build_ext --inplace --force > $WT/_build2.log 2>&1; fi
 echo "== demo without the change (expect 0)"
 ( cd $SRC && PYTHONPATH=$WT/src timeout 1200 /venv/bin/python demo.py > $WT/_demo_without.log 2>&1; echo "exit=$?" ; tail -2 $WT/_demo_without.log )
 cd /
